@@ -201,7 +201,7 @@ def keys(e):
         n0 = norm(e)
     finally:
         CVAL = saved
-    out = [(k0, n0)]
+    out = [("text:" + rx(e), e), (k0, n0)]      # the text itself: what cse alone (-Q0 -Qcse) compares
     if k1 != k0:
         out.append((k1, norm(e)))
     return out
